@@ -468,7 +468,33 @@ pub fn shard_main(prop: &Prop, env: Env) -> i32 {
         let mut runner = TestRunner::new(config);
         let strat = proptest::collection::vec(any::<u32>(), 0..=budget.max_len);
         let crumb = env.out_dir.join(format!("shard-{}.last", env.shard));
+        // in-process watchdog: a generated case that makes no progress for 60 s ends the shard
+        // with exit code 98; the breadcrumb then names the case
+        let progress = std::sync::Arc::new(std::sync::atomic::AtomicU64::new(0));
+        let finished = std::sync::Arc::new(std::sync::atomic::AtomicBool::new(false));
+        if prop.breadcrumb {
+            let (p2, f2) = (progress.clone(), finished.clone());
+            std::thread::spawn(move || {
+                use std::sync::atomic::Ordering::SeqCst;
+                let mut last = p2.load(SeqCst);
+                let mut since = Instant::now();
+                loop {
+                    std::thread::sleep(Duration::from_millis(500));
+                    if f2.load(SeqCst) {
+                        return;
+                    }
+                    let cur = p2.load(SeqCst);
+                    if cur != last {
+                        last = cur;
+                        since = Instant::now();
+                    } else if since.elapsed() > Duration::from_secs(60) {
+                        std::process::exit(98);
+                    }
+                }
+            });
+        }
         let res = runner.run(&strat, |v| {
+            progress.fetch_add(1, std::sync::atomic::Ordering::SeqCst);
             if prop.breadcrumb {
                 let _ = std::fs::write(&crumb, serde_json::to_vec(&v).unwrap_or_default());
             }
@@ -483,6 +509,7 @@ pub fn shard_main(prop: &Prop, env: Env) -> i32 {
                 }
             }
         });
+        finished.store(true, std::sync::atomic::Ordering::SeqCst);
         if let Err(e) = res {
             match e {
                 TestError::Fail(_, minimal) => {
@@ -591,7 +618,7 @@ pub fn parent_main(prop: &Prop, tier: Tier, seed: u64, exe: PathBuf) -> i32 {
             let sigdesc = status
                 .signal()
                 .map(|s| format!("signal-{}", s))
-                .unwrap_or_else(|| format!("exit-{}", status.code().unwrap_or(-1)));
+                .unwrap_or_else(|| if status.code() == Some(98) { "hang-60s".to_string() } else { format!("exit-{}", status.code().unwrap_or(-1)) });
             if prop.breadcrumb && crumb.exists() {
                 let choices: Value = std::fs::read(&crumb)
                     .ok()
